@@ -885,6 +885,14 @@ def gen_files(tier, F):
             yield case(fam, tool, 'dimacs', [], ['dimacs'], stdin='cnf:' + kind, core=True)
             yield case(fam, tool, 'dimacs', [], ['dimacs', '-'], stdin='cnf:' + kind)
             yield case(fam, tool, 'dimacs', ['-of', 'opb'], ['dimacs'], stdin='cnf:' + kind)
+            if kind in ('valid', 'empty', 'crlf'):
+                # the formula arrives on a real pipe (not seekable) and leaves in
+                # every output format: run as real processes
+                for sel in (['-of', 'latex'], ['-l'], ['-o', 'o.tex'], ['-o', 'o.opb'],
+                            ['-of', 'latex', '--varnames'], ['-q', '-of', 'latex']):
+                    yield case(fam, tool, 'dimacs', sel, ['dimacs'], stdin='cnf:' + kind, core=True)
+                    yield case(fam, tool, 'dimacs', sel, ['dimacs', '-', '-T', 'flip'],
+                               stdin='cnf:' + kind, core=(kind == 'valid'))
         yield case(fam, tool, 'dimacs', [], ['dimacs', '{FX}/f_valid.cnf', '{FX}/f_valid.cnf'])
     # graph files
     for gt in ('simple', 'dag', 'bipartite'):
@@ -1395,7 +1403,14 @@ def run_slice(args, R):
                          verdicts['inproc'][0] == verdicts['process'][0] and
                          [b[:2] for b in verdicts['inproc'][1]] ==
                          [b[:2] for b in verdicts['process'][1]])
-                if not agree:
+                viol = verdicts['inproc'][0].startswith('violation') or \
+                    verdicts['process'][0].startswith('violation') or \
+                    verdicts['inproc'][1] or verdicts['process'][1]
+                if not agree and viol:
+                    # the real process is the behaviour a user sees (real pipes,
+                    # real exit status): both verdicts are reported below
+                    R.stats['process_differs_from_inproc_with_violation'] += 1
+                elif not agree:
                     raise RuntimeError(
                         'in-process and out-of-process runs of %r disagree: %r / %r'
                         % (c, (o.brief(), verdicts['inproc']),
